@@ -211,44 +211,296 @@ Proof.
     exists l'. cbn [a_lists a_ranges a_held up_g up_ar]. split; [reflexivity|]. split; [exact Hinv'|]. split; [exact Hur'|]. split; [exact Hheld|]. split; assumption.
 Qed.
 
+Lemma init_PR k ns bs : 0 < ns -> PR (up_init k ns bs) (mk_ast [ul ns [] 0]).
+Proof.
+  intros Hns. exists (ul ns [] 0). cbn [mk_ast a_lists a_ranges a_held up_init up_ar up_g ar_init ar_used ar_cache ar_cached].
+  split; [reflexivity|]. split.
+  - apply init_inv; [cbn; constructor; [intros []|constructor]|]. constructor; [|constructor]. cbn. repeat split; lia.
+  - split; [apply uempty_R; exact Hns|]. repeat split.
+Qed.
+
+
+(* ---------- growth on its own, the constructor, the array operations ---------- *)
+Theorem grow_refines s sp answer s1 ok evs : PR s sp -> 0 < up_ns s < 2^64 ->
+  (forall addr, answer = Some addr -> WB sp addr (ar_next (up_ar s)) /\ up_ns s <= ar_next (up_ar s) - hdr) ->
+  up_grow s answer = (s1, ok, evs) ->
+  exists sp1, acc_evs sp evs = Some sp1 /\ PR s1 sp1 /\ up_ns s1 = up_ns s /\
+              (ok = true -> u_nodes (ug_l (up_g s1)) <> [] /\ existsb is_up evs = true) /\ (ok = false -> s1 = s /\ sp1 = sp) /\
+              (answer = None -> forallb (fun e => match e with EUp _ _ => false | _ => true end) evs = true).
+Proof.
+  intros (l & Hls & Hinv & Hur & Hheld & Hc & Hcd) Hnsr Hwb Hstep. unfold up_grow in Hstep.
+  pose proof (list_ns_of_UR _ _ _ Hur) as El. assert (Ens : l_ns l = up_ns s) by (rewrite El; reflexivity).
+  destruct hdr_eq as (Eh & Eh16 & Emax).
+  unfold astep in Hstep. rewrite Hc in Hstep.
+  destruct (match ar_kind (up_ar s) with AFixed => (ar_next (up_ar s) =? 0) | _ => false end) eqn:Hfix.
+  { assert (Hs : (s1, ok, evs) = ({| up_ar := up_ar s; up_g := up_g s |}, false, [])).
+    { rewrite <- Hstep. destruct (ar_kind (up_ar s)); try discriminate. rewrite Hfix. reflexivity. }
+    inversion Hs; subst s1 ok evs; clear Hs Hstep. exists sp. cbn [acc_evs]. split; [reflexivity|].
+    assert (Es : {| up_ar := up_ar s; up_g := up_g s |} = s) by (destruct s; reflexivity). rewrite Es.
+    split; [exists l; split; [exact Hls|]; split; [exact Hinv|]; split; [exact Hur|]; split; [exact Hheld|]; split; assumption|].
+    split; [reflexivity|]. split; [discriminate|]. split; [intros _; split; reflexivity|reflexivity]. }
+  assert (Hstep' : (s1, ok, evs) =
+    match answer with
+    | None => ({| up_ar := up_ar s; up_g := up_g s |}, false, [EUpFail])
+    | Some x =>
+        let b := (x, ar_next (up_ar s)) in
+        let a' := ar_set (up_ar s) (b :: ar_used (up_ar s)) [] (match ar_kind (up_ar s) with AGrow => 2 * ar_next (up_ar s) | AFixed => 0 | AConst => ar_next (up_ar s) end) in
+        ({| up_ar := a'; up_g := {| ug_l := u_insert (ug_l (up_g s)) (b_mem b) (b_usable b); ug_live := ug_live (up_g s) |} |}, true,
+         [EUp (b_mem b - hdrZ) (b_usable b + hdrZ); EIns (up_ns s) (b_mem b) (b_usable b)])
+    end).
+  { rewrite <- Hstep. destruct (ar_kind (up_ar s)); try (rewrite Hfix); destruct answer; reflexivity. }
+  clear Hstep. destruct answer as [x|].
+  - destruct (Hwb x eq_refl) as [Hw Hroom]. cbv zeta in Hstep'.
+    set (nx := ar_next (up_ar s)) in *. set (ns := up_ns s) in *.
+    unfold b_mem, b_usable in Hstep'. cbn [fst snd] in Hstep'.
+    replace (x + hdr - hdrZ) with x in Hstep' by lia. replace (nx - hdr + hdrZ) with nx in Hstep' by lia.
+    set (m := x + hdr) in *. set (sz := nx - hdr) in *. inversion Hstep'; subst s1 ok evs; clear Hstep'.
+    assert (Hup : acc_ev sp (EUp x nx) = Some {| a_lists := a_lists sp; a_ranges := a_ranges sp; a_held := (x, nx) :: a_held sp |}).
+    { cbn [acc_ev]. unfold WB in Hw. rewrite Hw. reflexivity. }
+    set (sp1 := {| a_lists := a_lists sp; a_ranges := a_ranges sp; a_held := (x, nx) :: a_held sp |}) in *.
+    unfold WB in Hw. apply andb_prop in Hw. destruct Hw as [Hw W4]. apply andb_prop in Hw. destruct Hw as [Hw W3]. apply andb_prop in Hw. destruct Hw as [W1 W2].
+    apply Z.ltb_lt in W1. apply Z.ltb_lt in W2. apply Z.eqb_eq in W3. rewrite forallb_forall in W4.
+    assert (Hfresh : forall y, In y (a_ranges sp) -> rng_disj (m, sz) (snd y)).
+    { intros y Hy. destruct Hinv as [_ _ _ _ _ Ii]. rewrite Forall_forall in Ii. destruct (Ii y Hy) as (b & Hb & Hin).
+      specialize (W4 b Hb). apply r_disj_spec in W4. unfold rng_disj, rng_inside, usable in *. cbn [fst snd] in *. unfold m, sz. lia. }
+    assert (Hq : 1 <= sz / ns) by (apply Z.div_le_lower_bound; unfold sz, ns in *; lia).
+    assert (Hpre : forallb (outside m (sz / ns) ns) (ulive_slots ns (ug_live (up_g s)) ++ u_nodes (ug_l (up_g s))) = true).
+    { apply forallb_forall. intros a Ha. destruct (known_inside _ _ _ a Hur Ha) as (rr & Hr & R1 & R2). change (u_ns (ug_l (up_g s))) with ns in Hr, R2.
+      specialize (Hfresh (ns, rr) Hr). unfold rng_disj in Hfresh. cbn [fst snd] in Hfresh. unfold outside.
+      pose proof (Z.mul_div_le sz ns ltac:(lia)). apply orb_true_intro. destruct Hfresh as [F|F]; [right; apply Z.leb_le; nia|left; apply Z.leb_le; lia]. }
+    assert (Hg1 : ugstep (up_g s) (UIns m sz) = Some ({| ug_l := u_insert (ug_l (up_g s)) m sz; ug_live := ug_live (up_g s) |}, None)).
+    { cbn [ugstep]. change (u_ns (ug_l (up_g s))) with ns. rewrite Hpre. destruct (Z.leb_spec 0 sz); [reflexivity|unfold sz in *; lia]. }
+    destruct (ustep_refines _ _ _ _ _ Hur Hg1) as (u1 & Hu1 & Hur1). cbn [us_step us_l us_rs] in Hu1. inversion Hu1; subst u1; clear Hu1.
+    rewrite Ens in Hur1. fold ns in Hur1.
+    set (l1 := {| l_kind := l_kind l; l_ns := ns; l_allocs := l_allocs l; l_nfree := l_nfree l + nodes_of (l_kind l) ns (m, sz) |}) in *.
+    assert (Hkind : l_kind l = LIntrusive) by (rewrite El; reflexivity).
+    assert (Hins : acc_ev sp1 (EIns ns m sz) = Some {| a_lists := [l1]; a_ranges := (ns, (m, sz)) :: a_ranges sp; a_held := (x, nx) :: a_held sp |}).
+    { cbn [acc_ev]. unfold sp1 at 1. cbn [a_lists]. rewrite Hls. rewrite <- Ens at 1. rewrite single_find.
+      assert (Hn : 0 <? nodes_of (l_kind l) ns (m, sz) = true) by (rewrite Hkind; unfold nodes_of, l_nodes; cbn [snd]; apply Z.ltb_lt; lia).
+      assert (Hrok : range_ok sp1 (m, sz) = true).
+      { unfold range_ok. cbn [snd fst]. apply andb_true_intro. split; [apply andb_true_intro; split|].
+        - apply Z.ltb_lt. unfold sz, ns in *. lia.
+        - apply existsb_exists. exists (x, nx). split; [left; reflexivity|]. apply r_inside_spec. unfold rng_inside, usable. cbn [fst snd]. unfold m, sz. lia.
+        - apply forallb_forall. intros y Hy. apply r_disj_spec. apply Hfresh. exact Hy. }
+      assert (Hal : (m mod (match l_kind l with LIntrusive => al_of ns | LSmall => maxalZ end) =? 0) = true).
+      { rewrite Hkind. apply Z.eqb_eq. destruct (al_of_cases ns Hnsr) as [Hcases _]. unfold m. rewrite Eh16.
+        assert (x mod 16 = 0) by lia. apply Z.mod_divide in H; [|lia]. destruct H as [q Hq'].
+        destruct Hcases as [->|[->|[->|[->| ->]]]]; apply Z.mod_divide; try lia; [exists (16 * q + 16)|exists (8 * q + 8)|exists (4 * q + 4)|exists (2 * q + 2)|exists (q + 1)]; lia. }
+      rewrite Hn, Hrok, Hal. cbn [andb]. unfold sp1. cbn [a_lists a_ranges a_held]. rewrite Hls. fold l1. rewrite (single_set l l1 ltac:(unfold l1; cbn [l_ns]; lia)). reflexivity. }
+    set (sp2 := {| a_lists := [l1]; a_ranges := (ns, (m, sz)) :: a_ranges sp; a_held := (x, nx) :: a_held sp |}) in *.
+    assert (Hevs : acc_evs sp [EUp x nx; EIns ns m sz] = Some sp2) by (cbn [acc_evs]; rewrite Hup, Hins; reflexivity).
+    exists sp2. split; [exact Hevs|]. split.
+    { exists l1. pose proof (acc_evs_inv _ _ _ Hinv Hevs) as Hinv2. unfold sp2 in *. cbn [a_lists a_ranges a_held up_g up_ar ar_set ar_used ar_cache ar_cached]. split; [reflexivity|]. split; [exact Hinv2|]. split; [exact Hur1|].
+      split; [rewrite Hheld; reflexivity|]. split; [reflexivity|exact Hcd]. }
+    split; [reflexivity|]. split; [intros _; split; [|reflexivity]|split; [discriminate|discriminate]].
+    cbn [up_g ug_l u_insert u_nodes]. change (u_ns (ug_l (up_g s))) with ns. destruct (Z.to_nat (sz / ns)) eqn:Eq; [lia|]. cbn [ublock app]. discriminate.
+  - inversion Hstep'; subst s1 ok evs; clear Hstep'. exists sp. split; [reflexivity|].
+    assert (Es : {| up_ar := up_ar s; up_g := up_g s |} = s) by (destruct s; reflexivity). rewrite Es.
+    split; [exists l; split; [exact Hls|]; split; [exact Hinv|]; split; [exact Hur|]; split; [exact Hheld|]; split; assumption|].
+    split; [reflexivity|]. split; [discriminate|]. split; [intros _; split; reflexivity|reflexivity].
+Qed.
+
+Lemma acc_op_array_unfold sp l ns try_ bytes evs x sp1 l1 l' :
+  a_lists sp = [l] -> l_ns l = ns -> (try_ && existsb is_up evs = false) ->
+  acc_evs sp evs = Some sp1 -> a_lists sp1 = [l1] -> l_ns l1 = ns -> take_slots (a_ranges sp1) l1 x (slots_needed ns bytes) = Some l' ->
+  acc_op sp (OAlloc try_ true ns bytes) evs (ObsOk x) = Some (with_list sp1 l').
+Proof.
+  intros Hls Ens Hg Hev Hls1 Ens1 T. unfold acc_op. rewrite Hls, <- Ens, single_find. cbn [negb andb orb]. rewrite Hg.
+  rewrite Hev, Hls1. rewrite Ens, <- Ens1, single_find. rewrite Ens1, T. reflexivity.
+Qed.
+
+(* taking an array (or, for a request of at most one node, a node) from the list *)
+Lemma take_array_refines s sp bytes s' x : PR s sp -> up_take_array s bytes = Some (s', x) ->
+  exists l l', a_lists sp = [l] /\ l_ns l = up_ns s /\ take_slots (a_ranges sp) l x (slots_needed (up_ns s) bytes) = Some l' /\
+               PR s' {| a_lists := [l']; a_ranges := a_ranges sp; a_held := a_held sp |} /\ up_ns s' = up_ns s.
+Proof.
+  intros (l & Hls & Hinv & Hur & Hheld & Hc & Hcd) Hstep. unfold up_take_array in Hstep.
+  pose proof (list_ns_of_UR _ _ _ Hur) as El. assert (Ens : l_ns l = up_ns s) by (rewrite El; reflexivity).
+  pose proof Hur as (Huinv & _). destruct Huinv as [_ Hns].
+  destruct (u_nodes (ug_l (up_g s))) as [|n0 ntl] eqn:En; [discriminate|].
+  destruct (u_alloc_array (ug_l (up_g s)) bytes) as [[x0 l2]|] eqn:Ea; [|discriminate]. inversion Hstep; subst s' x0; clear Hstep.
+  assert (Hfin : forall k, ugstep (up_g s) k = Some ({| ug_l := l2; ug_live := (x, slots_needed (u_ns (ug_l (up_g s))) bytes) :: ug_live (up_g s) |}, Some x) ->
+                 us_step {| us_rs := a_ranges sp; us_l := l |} k (Some x) =
+                   match take_slots (a_ranges sp) l x (slots_needed (up_ns s) bytes) with Some l' => Some {| us_rs := a_ranges sp; us_l := l' |} | None => None end ->
+                 exists l0 l', a_lists sp = [l0] /\ l_ns l0 = up_ns s /\ take_slots (a_ranges sp) l0 x (slots_needed (up_ns s) bytes) = Some l' /\
+                   PR {| up_ar := up_ar s; up_g := {| ug_l := l2; ug_live := (x, slots_needed (u_ns (ug_l (up_g s))) bytes) :: ug_live (up_g s) |} |}
+                      {| a_lists := [l']; a_ranges := a_ranges sp; a_held := a_held sp |} /\
+                   up_ns {| up_ar := up_ar s; up_g := {| ug_l := l2; ug_live := (x, slots_needed (u_ns (ug_l (up_g s))) bytes) :: ug_live (up_g s) |} |} = up_ns s).
+  { intros k Hk Hus. destruct (ustep_refines _ _ _ _ _ Hur Hk) as (u' & Hu & Hur'). rewrite Hus in Hu.
+    destruct (take_slots (a_ranges sp) l x (slots_needed (up_ns s) bytes)) as [l'|] eqn:T; [|discriminate]. inversion Hu; subst u'; clear Hu.
+    exists l, l'. split; [exact Hls|]. split; [exact Ens|]. split; [exact T|].
+    assert (Ens' : l_ns l' = l_ns l) by (unfold take_slots in T; destruct (_ && _) in T; [|discriminate]; inversion T; reflexivity).
+    assert (Hacc : acc_op sp (OAlloc false true (up_ns s) bytes) [] (ObsOk x) = Some (with_list sp l')).
+    { apply (acc_op_array_unfold sp l (up_ns s) false bytes [] x sp l l' Hls Ens); [reflexivity|reflexivity|exact Hls|exact Ens|exact T]. }
+    pose proof (acc_op_inv _ _ _ _ _ Hinv Hacc) as Hinv'.
+    assert (Hw : with_list sp l' = {| a_lists := [l']; a_ranges := a_ranges sp; a_held := a_held sp |}) by (unfold with_list; rewrite Hls, (single_set l l' Ens'); reflexivity).
+    rewrite Hw in Hinv'. split.
+    - exists l'. cbn [a_lists a_ranges a_held up_g up_ar]. split; [reflexivity|]. split; [exact Hinv'|]. split; [exact Hur'|]. split; [exact Hheld|]. split; assumption.
+    - destruct Hur' as ((_ & _) & Hl' & _). cbn [us_l ug_l] in Hl'. unfold up_ns. cbn [up_g ug_l].
+      assert (E1 : l_ns l' = u_ns l2) by (rewrite Hl'; reflexivity). rewrite <- E1, Ens', Ens. reflexivity. }
+  destruct (Z.leb_spec bytes (u_ns (ug_l (up_g s)))) as [Hb|Hb].
+  - apply (Hfin UAlloc).
+    + unfold u_alloc_array in Ea. destruct (Z.leb_spec bytes (u_ns (ug_l (up_g s)))); [|lia].
+      cbn [ugstep]. rewrite Ea. unfold slots_needed. destruct (Z.leb_spec bytes (u_ns (ug_l (up_g s)))); [reflexivity|lia].
+    + cbn [us_step us_l us_rs]. unfold slots_needed, up_ns. destruct (Z.leb_spec bytes (u_ns (ug_l (up_g s)))); [reflexivity|lia].
+  - apply (Hfin (UAllocArr bytes)).
+    + cbn [ugstep]. destruct (Z.ltb_spec (u_ns (ug_l (up_g s))) bytes); [|lia]. rewrite Ea.
+      destruct (nodes_for_slots (ug_l (up_g s)) bytes Hns Hb) as [Hsn _]. rewrite Hsn. reflexivity.
+    + cbn [us_step us_l us_rs]. rewrite Ens. reflexivity.
+Qed.
+
+Lemma take_none_keeps s bytes : up_take_array s bytes = None -> True.
+Proof. trivial. Qed.
+
+Theorem try_alloc_array_refines s sp bytes s' r evs : PR s sp -> up_try_alloc_array s bytes = (s', r, evs) ->
+  exists sp', acc_op sp (OAlloc true true (up_ns s) bytes) evs r = Some sp' /\ PR s' sp'.
+Proof.
+  intros Hpr Hstep. unfold up_try_alloc_array in Hstep. destruct (up_take_array s bytes) as [[s1 x]|] eqn:E; inversion Hstep; subst s' r evs; clear Hstep.
+  - destruct (take_array_refines s sp bytes s1 x Hpr E) as (l & l' & Hls & Ens & T & Hpr' & _).
+    assert (Ens' : l_ns l' = l_ns l) by (unfold take_slots in T; destruct (_ && _) in T; [|discriminate]; inversion T; reflexivity).
+    assert (Hw : with_list sp l' = {| a_lists := [l']; a_ranges := a_ranges sp; a_held := a_held sp |}) by (unfold with_list; rewrite Hls, (single_set l l' Ens'); reflexivity).
+    eexists. split; [|exact Hpr']. rewrite <- Hw.
+    apply (acc_op_array_unfold sp l (up_ns s) true bytes [] x sp l l' Hls Ens); [reflexivity|reflexivity|exact Hls|exact Ens|exact T].
+  - destruct Hpr as (l & Hls & Hrest). pose proof Hrest as (_ & Hur & _). pose proof (list_ns_of_UR _ _ _ Hur) as El.
+    assert (Ens : l_ns l = up_ns s) by (rewrite El; reflexivity).
+    exists sp. split; [|exists l; split; [exact Hls|exact Hrest]].
+    unfold acc_op. rewrite Hls, <- Ens, single_find. cbn [negb andb orb existsb acc_evs]. reflexivity.
+Qed.
+
+Theorem alloc_array_refines s sp bytes answer s' r evs : PR s sp -> 0 < up_ns s < 2^64 ->
+  (forall addr, answer = Some addr -> WB sp addr (ar_next (up_ar s)) /\ up_ns s <= ar_next (up_ar s) - hdr) ->
+  up_alloc_array s bytes answer = (s', r, evs) ->
+  exists sp', acc_op sp (OAlloc false true (up_ns s) bytes) evs r = Some sp' /\ PR s' sp'.
+Proof.
+  intros Hpr Hnsr Hwb Hstep. unfold up_alloc_array in Hstep.
+  destruct (up_take_array s bytes) as [[s1 x]|] eqn:E.
+  - inversion Hstep; subst s' r evs; clear Hstep.
+    destruct (take_array_refines s sp bytes s1 x Hpr E) as (l & l' & Hls & Ens & T & Hpr' & _).
+    assert (Ens' : l_ns l' = l_ns l) by (unfold take_slots in T; destruct (_ && _) in T; [|discriminate]; inversion T; reflexivity).
+    assert (Hw : with_list sp l' = {| a_lists := [l']; a_ranges := a_ranges sp; a_held := a_held sp |}) by (unfold with_list; rewrite Hls, (single_set l l' Ens'); reflexivity).
+    eexists. split; [|exact Hpr']. rewrite <- Hw.
+    apply (acc_op_array_unfold sp l (up_ns s) false bytes [] x sp l l' Hls Ens); [reflexivity|reflexivity|exact Hls|exact Ens|exact T].
+  - destruct (up_grow s answer) as [[s1 ok] evs1] eqn:G.
+    destruct (grow_refines s sp answer s1 ok evs1 Hpr Hnsr Hwb G) as (sp1 & Hevs & Hpr1 & Ens1 & _).
+    pose proof Hpr as (l & Hls & _ & Hur & _). pose proof (list_ns_of_UR _ _ _ Hur) as El. assert (Ens : l_ns l = up_ns s) by (rewrite El; reflexivity).
+    assert (Hthrow : acc_op sp (OAlloc false true (up_ns s) bytes) evs1 ObsThrow = Some sp1).
+    { unfold acc_op. rewrite Hls, <- Ens, single_find. cbn [negb andb orb]. rewrite Hevs. reflexivity. }
+    destruct ok.
+    + destruct (up_take_array s1 bytes) as [[s2 x]|] eqn:E2; inversion Hstep; subst s' r evs; clear Hstep.
+      * destruct (take_array_refines s1 sp1 bytes s2 x Hpr1 E2) as (l1 & l' & Hls1 & Ens1' & T & Hpr' & _). rewrite Ens1 in *.
+        assert (Ens' : l_ns l' = l_ns l1) by (unfold take_slots in T; destruct (_ && _) in T; [|discriminate]; inversion T; reflexivity).
+        assert (Hw : with_list sp1 l' = {| a_lists := [l']; a_ranges := a_ranges sp1; a_held := a_held sp1 |}) by (unfold with_list; rewrite Hls1, (single_set l1 l' Ens'); reflexivity).
+        eexists. split; [|exact Hpr']. rewrite <- Hw.
+        apply (acc_op_array_unfold sp l (up_ns s) false bytes evs1 x sp1 l1 l' Hls Ens); [reflexivity|exact Hevs|exact Hls1|exact Ens1'|exact T].
+      * exists sp1. split; [exact Hthrow|exact Hpr1].
+    + inversion Hstep; subst s' r evs; clear Hstep. exists sp1. split; [exact Hthrow|exact Hpr1].
+Qed.
+
+Theorem dealloc_array_refines s sp p bytes s' r evs : PR s sp -> up_dealloc_array s p bytes = Some (s', r, evs) ->
+  exists sp', acc_op sp (ODealloc (up_ns s) bytes p) evs r = Some sp' /\ PR s' sp'.
+Proof.
+  intros (l & Hls & Hinv & Hur & Hheld & Hc & Hcd) Hstep. unfold up_dealloc_array in Hstep.
+  pose proof (list_ns_of_UR _ _ _ Hur) as El. assert (Ens : l_ns l = up_ns s) by (rewrite El; reflexivity).
+  pose proof Hur as (Huinv & _). destruct Huinv as [_ Hns].
+  destruct (remove_alloc p (slots_needed (u_ns (ug_l (up_g s))) bytes) (ug_live (up_g s))) as [live'|] eqn:E; [|discriminate]. inversion Hstep; subst s' r evs; clear Hstep.
+  assert (Hk : exists k, ugstep (up_g s) k = Some ({| ug_l := u_dealloc_array (ug_l (up_g s)) p bytes; ug_live := live' |}, None) /\
+                         us_step {| us_rs := a_ranges sp; us_l := l |} k None =
+                           match give_slots l p (slots_needed (up_ns s) bytes) with Some l' => Some {| us_rs := a_ranges sp; us_l := l' |} | None => None end).
+  { destruct (Z.leb_spec bytes (u_ns (ug_l (up_g s)))) as [Hb|Hb].
+    - exists (UDealloc p). unfold slots_needed in E. destruct (Z.leb_spec bytes (u_ns (ug_l (up_g s)))); [|lia]. split.
+      + cbn [ugstep]. rewrite E. unfold u_dealloc_array. destruct (Z.leb_spec bytes (u_ns (ug_l (up_g s)))); [reflexivity|lia].
+      + cbn [us_step us_l us_rs]. unfold slots_needed, up_ns. destruct (Z.leb_spec bytes (u_ns (ug_l (up_g s)))); [reflexivity|lia].
+    - exists (UDeallocArr p bytes). destruct (nodes_for_slots (ug_l (up_g s)) bytes Hns Hb) as [Hsn _]. split.
+      + cbn [ugstep]. destruct (Z.ltb_spec (u_ns (ug_l (up_g s))) bytes); [|lia]. rewrite <- Hsn, E. reflexivity.
+      + cbn [us_step us_l us_rs]. rewrite Ens. reflexivity. }
+  destruct Hk as (k & Hk & Hus). destruct (ustep_refines _ _ _ _ _ Hur Hk) as (u' & Hu & Hur'). rewrite Hus in Hu.
+  destruct (give_slots l p (slots_needed (up_ns s) bytes)) as [l'|] eqn:G; [|discriminate]. inversion Hu; subst u'; clear Hu.
+  assert (Ens' : l_ns l' = l_ns l) by (unfold give_slots in G; destruct (remove_alloc p _ (l_allocs l)); [|discriminate]; inversion G; reflexivity).
+  assert (Hacc : acc_op sp (ODealloc (up_ns s) bytes p) [] ObsTrue = Some (with_list sp l')).
+  { unfold acc_op. rewrite Hls, <- Ens, single_find. rewrite Ens, G. reflexivity. }
+  pose proof (acc_op_inv _ _ _ _ _ Hinv Hacc) as Hinv'.
+  assert (Hw : with_list sp l' = {| a_lists := [l']; a_ranges := a_ranges sp; a_held := a_held sp |}) by (unfold with_list; rewrite Hls, (single_set l l' Ens'); reflexivity).
+  rewrite Hw in *. eexists. split; [exact Hacc|].
+  exists l'. cbn [a_lists a_ranges a_held up_g up_ar]. split; [reflexivity|]. split; [exact Hinv'|]. split; [exact Hur'|]. split; [exact Hheld|]. split; assumption.
+Qed.
+
+(* the constructor: the first block goes to the list before anything is asked for *)
+Theorem construct_refines k ns bs answer s ok evs : 0 < ns < 2^64 ->
+  (forall addr, answer = Some addr -> WB (mk_ast [ul ns [] 0]) addr bs /\ ns <= bs - hdr) ->
+  up_construct k ns bs answer = (s, ok, evs) ->
+  exists sp, acc_evs (mk_ast [ul ns [] 0]) evs = Some sp /\ PR s sp.
+Proof.
+  intros Hns Hwb Hc. unfold up_construct in Hc.
+  destruct (grow_refines (up_init k ns bs) (mk_ast [ul ns [] 0]) answer s ok evs (init_PR k ns bs ltac:(lia)) Hns Hwb Hc) as (sp & Hev & Hpr & _).
+  exists sp. split; assumption.
+Qed.
+
 (* ---------- histories ---------- *)
+Definition pool_answer_ok (s : upool) (sp : ast) (o : pool_op) : Prop :=
+  match answer_of_op o with Some addr => WB sp addr (ar_next (up_ar s)) /\ up_ns s <= ar_next (up_ar s) - hdr | None => True end.
+
+Theorem step_refines_pool s sp o s' r evs : PR s sp -> 0 < up_ns s < 2^64 -> pool_answer_ok s sp o ->
+  up_step s o = Some (s', r, evs) -> exists sp', acc_op sp (spec_op_of (up_ns s) o) evs r = Some sp' /\ PR s' sp'.
+Proof.
+  intros Hpr Hns Hok Hstep. unfold pool_answer_ok in Hok. destruct o as [answer| |p|bytes answer|bytes|p bytes]; cbn [up_step spec_op_of answer_of_op] in *.
+  - inversion Hstep as [H1]. apply (alloc_node_refines s sp answer s' r evs Hpr Hns); [|exact H1]. intros addr ->. exact Hok.
+  - inversion Hstep as [H1]. apply (try_alloc_node_refines s sp s' r evs Hpr H1).
+  - apply (dealloc_node_refines s sp p s' r evs Hpr Hstep).
+  - inversion Hstep as [H1]. apply (alloc_array_refines s sp bytes answer s' r evs Hpr Hns); [|exact H1]. intros addr ->. exact Hok.
+  - inversion Hstep as [H1]. apply (try_alloc_array_refines s sp bytes s' r evs Hpr H1).
+  - apply (dealloc_array_refines s sp p bytes s' r evs Hpr Hstep).
+Qed.
+
+Lemma u_alloc_ns l x l' : u_alloc l = Some (x, l') -> u_ns l' = u_ns l.
+Proof. unfold u_alloc. destruct (u_nodes l); [discriminate|]. intros H; inversion H; reflexivity. Qed.
+Lemma u_alloc_array_ns l bytes x l' : u_alloc_array l bytes = Some (x, l') -> u_ns l' = u_ns l.
+Proof.
+  unfold u_alloc_array. destruct (bytes <=? u_ns l); [apply u_alloc_ns|].
+  destruct (u_find _ _ _ _ _); [|discriminate]. intros H; inversion H; reflexivity.
+Qed.
+Lemma u_dealloc_array_ns l p bytes : u_ns (u_dealloc_array l p bytes) = u_ns l.
+Proof. unfold u_dealloc_array. destruct (bytes <=? u_ns l); reflexivity. Qed.
+Lemma up_take_ns s bytes s' x : up_take_array s bytes = Some (s', x) -> up_ns s' = up_ns s.
+Proof.
+  unfold up_take_array, up_ns. destruct (u_nodes (ug_l (up_g s))); [discriminate|].
+  destruct (u_alloc_array (ug_l (up_g s)) bytes) as [[x0 l']|] eqn:E; [|discriminate]. intros H; inversion H; subst. cbn [up_g ug_l]. eapply u_alloc_array_ns; eauto.
+Qed.
+Lemma up_grow_ns s answer s1 ok evs : up_grow s answer = (s1, ok, evs) -> up_ns s1 = up_ns s.
+Proof.
+  unfold up_grow, up_ns. destruct (astep (up_ar s) ABlock answer) as [[a' out] calls]. destruct out; intros H; inversion H; reflexivity.
+Qed.
+
 Lemma up_ns_step s o s' r evs : up_step s o = Some (s', r, evs) -> up_ns s' = up_ns s.
 Proof.
-  destruct o as [answer| |p]; cbn [up_step].
+  destruct o as [answer| |p|bytes answer|bytes|p bytes]; cbn [up_step].
   - intros H. inversion H as [H1]; clear H. unfold up_alloc_node in H1. unfold up_ns.
     destruct (u_nodes (ug_l (up_g s))) eqn:En.
     + destruct (astep (up_ar s) ABlock answer) as [[a' out] calls]. destruct out; try (inversion H1; reflexivity).
       destruct (u_alloc (u_insert (ug_l (up_g s)) mem size)) as [[x l']|] eqn:E; inversion H1; cbn [up_g ug_l]; [|reflexivity].
-      unfold u_alloc in E. destruct (u_nodes (u_insert (ug_l (up_g s)) mem size)); [discriminate|]. inversion E. reflexivity.
-    + destruct (u_alloc (ug_l (up_g s))) as [[x l']|] eqn:E; inversion H1; cbn [up_g ug_l]; [|reflexivity].
-      unfold u_alloc in E. rewrite En in E. inversion E. reflexivity.
+      rewrite (u_alloc_ns _ _ _ E). reflexivity.
+    + destruct (u_alloc (ug_l (up_g s))) as [[x l']|] eqn:E; inversion H1; cbn [up_g ug_l]; [|reflexivity]. exact (u_alloc_ns _ _ _ E).
   - intros H. inversion H as [H1]; clear H. unfold up_try_alloc_node in H1. unfold up_ns.
-    destruct (u_alloc (ug_l (up_g s))) as [[x l']|] eqn:E; inversion H1; cbn [up_g ug_l]; [|reflexivity].
-    unfold u_alloc in E. destruct (u_nodes (ug_l (up_g s))); [discriminate|]. inversion E. reflexivity.
+    destruct (u_alloc (ug_l (up_g s))) as [[x l']|] eqn:E; inversion H1; cbn [up_g ug_l]; [|reflexivity]. exact (u_alloc_ns _ _ _ E).
   - unfold up_dealloc_node. destruct (remove_alloc p 1 (ug_live (up_g s))); [|discriminate]. intros H. inversion H. reflexivity.
+  - intros H. inversion H as [H1]; clear H. unfold up_alloc_array in H1.
+    destruct (up_take_array s bytes) as [[s1 x]|] eqn:E; [inversion H1; subst; exact (up_take_ns _ _ _ _ E)|].
+    destruct (up_grow s answer) as [[s1 ok] evs1] eqn:G. pose proof (up_grow_ns _ _ _ _ _ G) as Eg.
+    destruct ok; [|inversion H1; subst; exact Eg].
+    destruct (up_take_array s1 bytes) as [[s2 x]|] eqn:E2; inversion H1; subst; [rewrite (up_take_ns _ _ _ _ E2)|]; exact Eg.
+  - intros H. inversion H as [H1]; clear H. unfold up_try_alloc_array in H1.
+    destruct (up_take_array s bytes) as [[s1 x]|] eqn:E; inversion H1; subst; [exact (up_take_ns _ _ _ _ E)|reflexivity].
+  - unfold up_dealloc_array. destruct (remove_alloc p _ (ug_live (up_g s))); [|discriminate]. intros H. inversion H. unfold up_ns. cbn [up_g ug_l]. apply u_dealloc_array_ns.
 Qed.
 
-(* the upstream source behaves: whenever it answers, the block is fresh, aligned and has room for a node *)
 Fixpoint answers_ok (s : upool) (sp : ast) (os : list pool_op) : Prop :=
   match os with
   | [] => True
-  | o :: tl =>
-      (match o with PAllocNode (Some addr) => WB sp addr (ar_next (up_ar s)) /\ up_ns s <= ar_next (up_ar s) - hdr | _ => True end) /\
+  | o :: tl => pool_answer_ok s sp o /\
       forall s' r evs sp', up_step s o = Some (s', r, evs) -> acc_op sp (spec_op_of (up_ns s) o) evs r = Some sp' -> answers_ok s' sp' tl
   end.
 
-Theorem step_refines_pool s sp o s' r evs : PR s sp -> 0 < up_ns s < 2^64 ->
-  (match o with PAllocNode (Some addr) => WB sp addr (ar_next (up_ar s)) /\ up_ns s <= ar_next (up_ar s) - hdr | _ => True end) ->
-  up_step s o = Some (s', r, evs) -> exists sp', acc_op sp (spec_op_of (up_ns s) o) evs r = Some sp' /\ PR s' sp'.
-Proof.
-  intros Hpr Hns Hok Hstep. destruct o as [answer| |p]; cbn [up_step spec_op_of] in *.
-  - inversion Hstep as [H1]. apply (alloc_node_refines s sp answer s' r evs Hpr Hns); [|exact H1].
-    intros addr ->. exact Hok.
-  - inversion Hstep as [H1]. apply (try_alloc_node_refines s sp s' r evs Hpr H1).
-  - apply (dealloc_node_refines s sp p s' r evs Hpr Hstep).
-Qed.
-
-(* every history of the Exec pool, over any upstream source that behaves, is a history the Spec accepts *)
+(* every history of the Exec pool -- node and array requests through the throwing and the composable members, releases, any
+   upstream source that behaves -- is a history the Spec accepts *)
 Theorem pool_refines_spec : forall os s sp s' tr, PR s sp -> 0 < up_ns s < 2^64 -> answers_ok s sp os ->
   up_run s os = Some (s', tr) -> exists sp', run sp tr = Some sp' /\ PR s' sp'.
 Proof.
@@ -259,12 +511,4 @@ Proof.
     destruct Hok as [Hok1 Hok2].
     destruct (step_refines_pool s sp o s1 r evs Hpr Hns Hok1 E) as (sp1 & Hacc & Hpr1).
     cbn [run]. rewrite Hacc. apply (IH s1 sp1 s2 tr1 Hpr1); [rewrite (up_ns_step _ _ _ _ _ E); exact Hns|exact (Hok2 _ _ _ _ E Hacc)|exact E2].
-Qed.
-
-Lemma init_PR k ns bs : 0 < ns -> PR (up_init k ns bs) (mk_ast [ul ns [] 0]).
-Proof.
-  intros Hns. exists (ul ns [] 0). cbn [mk_ast a_lists a_ranges a_held up_init up_ar up_g ar_init ar_used ar_cache ar_cached].
-  split; [reflexivity|]. split.
-  - apply init_inv; [cbn; constructor; [intros []|constructor]|]. constructor; [|constructor]. cbn. repeat split; lia.
-  - split; [apply uempty_R; exact Hns|]. repeat split.
 Qed.
